@@ -125,13 +125,18 @@ pub fn x25519base(n: &[u8; 32]) -> (Impls, Option<Vec<u8>>) {
     (v, Some(r))
 }
 pub fn argon2(ty: u64, pwd: &[u8], salt: &[u8], t: u64, mkib: u64, outlen: usize) -> (Impls, Option<Vec<u8>>) {
+    argon2_bytes(ty, pwd, salt, t, (mkib as usize) * 1024, outlen)
+}
+/// memlimit given in bytes (libsodium and the reference use floor(memlimit / 1024) KiB)
+pub fn argon2_bytes(ty: u64, pwd: &[u8], salt: &[u8], t: u64, memlimit: usize, outlen: usize) -> (Impls, Option<Vec<u8>>) {
+    let mkib = (memlimit / 1024) as u64;
     let alg = if ty == 1 { cp::PasswordHashAlgorithm::Argon2i13 } else { cp::PasswordHashAlgorithm::Argon2id13 };
     let mut v: Impls = vec![];
-    v.push(("crypto_pwhash".into(), match catch(|| { let mut o = vec![0u8; outlen]; cp::crypto_pwhash(&mut o, pwd, salt, t, (mkib as usize) * 1024, alg).map(|_| o).map_err(es) }) { Ok(r) => r, Err(p) => Err(format!("PANIC {}", p)) }));
+    v.push(("crypto_pwhash".into(), match catch(|| { let mut o = vec![0u8; outlen]; cp::crypto_pwhash(&mut o, pwd, salt, t, memlimit, alg).map(|_| o).map_err(es) }) { Ok(r) => r, Err(p) => Err(format!("PANIC {}", p)) }));
     // libsodium: 16-byte salts only; Argon2i needs t >= 3; outlen >= 16
     let mut r = vec![0u8; outlen];
     let ok = salt.len() == 16 && outlen >= 16 && !(ty == 1 && t < 3) && mkib >= 8;
-    let rc = if ok { unsafe { so::crypto_pwhash(r.as_mut_ptr(), outlen as u64, pwd.as_ptr() as *const _, pwd.len() as u64, salt.as_ptr(), t, (mkib as usize) * 1024, ty as i32) } } else { -1 };
+    let rc = if ok { unsafe { so::crypto_pwhash(r.as_mut_ptr(), outlen as u64, pwd.as_ptr() as *const _, pwd.len() as u64, salt.as_ptr(), t, memlimit, ty as i32) } } else { -1 };
     (v, if rc == 0 { Some(r) } else { None })
 }
 
@@ -584,9 +589,11 @@ pub fn cmd_sweep_c09(args: &[String]) {
         let salt = rng.bytes(16);
         idx += 1;
         if idx % stride != first { return; }
-        let (im, sod) = argon2(ty, &pw, &salt, t, mkib, outlen);
+        // the memory limit is given in bytes: whole KiB and every kind of remainder
+        let rem = [0usize, 0, 1, 512, 1023][idx % 5];
+        let (im, sod) = argon2_bytes(ty, &pw, &salt, t, (mkib as usize) * 1024 + rem, outlen);
         if sod.is_none() { rep.fail("libsodium rejects a grid point (harness error)", json!({"type": ty, "t": t, "m": mkib, "outlen": outlen})); return; }
-        compare(rep, "argon2", im, &[("libsodium", sod.as_ref())], json!({"type": ty, "t": t, "m_kib": mkib, "outlen": outlen, "pwlen": pwlen, "seed": seed}));
+        compare(rep, "argon2", im, &[("libsodium", sod.as_ref())], json!({"type": ty, "t": t, "m_kib": mkib, "memlimit_bytes": (mkib as usize) * 1024 + rem, "outlen": outlen, "pwlen": pwlen, "seed": seed}));
     };
     // output lengths: every length 16..=200 (all residues mod 32 around 64, 96, 128), then around 1024 and up to 1100
     for outlen in (16..=200usize).chain([255, 256, 257, 1023, 1024, 1025, 1100]) {
